@@ -1304,6 +1304,68 @@ theorem sameNodes_cloneSource {gv g : Graph} (h : SameNodes gv g) (n : Nat) : (g
 theorem sameNodes_dryRun {gv g : Graph} (h : SameNodes gv g) (n : Nat) : (gv.node n).dryRun = (g.node n).dryRun := by
   have := congrArg Node.dryRun (h.node n); exact this
 
+theorem mem_dedup (l : List Nat) (a : Nat) : a ∈ dedupNat l ↔ a ∈ l := by
+  induction l with
+  | nil => simp [dedupNat]
+  | cons b l ih =>
+    unfold dedupNat
+    by_cases h : l.contains b = true
+    · simp only [h, if_true, ih, List.mem_cons]
+      constructor
+      · exact Or.inr
+      · rintro (rfl | h')
+        · simpa using h
+        · exact h'
+    · simp only [h, Bool.false_eq_true, if_false, List.mem_cons, ih]
+
+/-- the default reuse scope: results and `finished` marks of all copies of a class count for every worker (all four
+pool scopes enabled) -/
+def GlobalShape (g : Graph) : Prop := ∀ n, n < g.nodes.length → (g.node n).shape = .global
+
+instance (g : Graph) : Decidable (GlobalShape g) := by unfold GlobalShape; infer_instance
+
+/-- `is_finished(worker, -1)` with the global shape: whoever left a `finished` mark on a copy is involved -/
+theorem involved_of_finished (g : Graph) (s : State) (p w m u : Nat) (hp : p < g.nodes.length)
+    (hpf : (g.node p).flat = false) (hsh : (g.node p).shape = .global) (hfin : isFinished g s p w (-1) = true)
+    (hm : m < g.nodes.length) (hmc : (g.node m).cls = (g.node p).cls) (hmf : (s.nd m).finished = some u) :
+    u ∈ involved g s p := by
+  unfold isFinished scopeCount at hfin
+  simp only [hpf, hsh, Bool.false_eq_true, if_false, beq_self_eq_true, if_true] at hfin
+  unfold sameList at hfin
+  rw [Bool.and_eq_true, List.all_eq_true] at hfin
+  have hu : u ∈ sharedFinished g s p := by
+    unfold sharedFinished
+    rw [mem_dedup, List.mem_filterMap]
+    exact ⟨m, (mem_copies g p m hp hpf).mpr ⟨hm, hmc⟩, hmf⟩
+  have := hfin.1 u hu
+  simpa using this
+
+/-- the copy of `p` the clean decision looks at for worker `v` -/
+theorem pickedOf_spec (g : Graph) (p v m : Nat) (hp : p < g.nodes.length) (hpf : (g.node p).flat = false)
+    (h : (if g.idIn v p then some p else (g.copies p).tail.find? (fun m => g.idIn v m)) = some m) :
+    m < g.nodes.length ∧ (g.node m).cls = (g.node p).cls ∧ g.idIn v m = true := by
+  split at h
+  · next hi => cases h; exact ⟨hp, rfl, hi⟩
+  · have hpred := List.find?_some h
+    have hmem := List.mem_of_mem_tail (List.mem_of_find?_eq_some h)
+    have := (mem_copies g p m hp hpf).mp hmem
+    exact ⟨this.1, this.2, hpred⟩
+
+/-- "dropped means done" across a piece of a step of `w`: a node that worker `u ≠ w` is registered to have dropped is
+not being executed by anybody but (possibly) `w` -/
+theorem not_in_flight_of_dropped {g : Graph} {s sd : State} (ci : CInv g s) (t : Trv g [] s) (hO : OwnerNames g) {w : Nat}
+    (a : Upd g [] w s sd) {v cp c : Nat} (hfc : (g.node c).flat = false) (hrel : relevant g v c = true)
+    (hd : v ∈ regWorkers (sd.cr cp).droppedCleanup (some (g.node c).cls))
+    (u : Nat) (hu : u ≠ w) (ph : Phase) (dir : Dir) (uid : String) (tag wait : Nat)
+    (hpc : (s.wd u).pc = .test c ph dir uid tag wait) : False := by
+  obtain ⟨hcl, hidu, _, _⟩ := t.pc u c ph dir uid tag wait hpc
+  have huv : u = v := hO.uniq c hcl hfc u v hidu (relevant_nonflat hrel hfc)
+  subst huv
+  have hnd := ci.not_dropped_in_flight u c ph dir uid tag wait hpc
+  rcases a.dropC _ _ u hd with h | ⟨h, _⟩
+  · exact hnd ⟨_, h⟩
+  · exact hu h
+
 /-! ## instances for the witnesses of `Props/C05.lean` -/
 
 /-- two workers of DIFFERENT swarms; `p` (nodes 0, 1) sets the removable state `vm1/p` (`unset_mode=fi`); its dependants
